@@ -113,6 +113,9 @@ func mutantsCmd(repo, dir, only, tier string, withTests bool) int {
 	if dir == "" {
 		dir = filepath.Join(root, "mutants")
 	}
+	if abs, err := filepath.Abs(dir); err == nil {
+		dir = abs
+	}
 	diffs, _ := filepath.Glob(filepath.Join(dir, "*.diff"))
 	nested, _ := filepath.Glob(filepath.Join(dir, "*", "patch.diff")) // seeded/<id>/patch.diff
 	diffs = append(diffs, nested...)
@@ -145,6 +148,7 @@ func mutantsCmd(repo, dir, only, tier string, withTests bool) int {
 		ap.Dir = scratch
 		if out, err := ap.CombinedOutput(); err != nil {
 			rows = append(rows, row{name, "", "PATCH-FAILED", strings.TrimSpace(string(out))})
+			fmt.Printf("%-44s PATCH-FAILED %s\n", name, strings.TrimSpace(string(out)))
 			failures++
 			os.RemoveAll(scratch)
 			continue
